@@ -85,3 +85,14 @@ def replay_session(ctx, r):
         for b in vlib.read_nd(verdict)[0]["bad"]:
             ctx.violation("%s class=%s" % (b["what"], events[0].get("class", "?")), "replayed session rejected", {"kind": "attach-session", "events": events})
         ctx.note_impl("replay", 1)
+
+
+def big_uploads(ctx):
+    """files of tens / hundreds of kilobytes (64 KiB chunks, lengths beyond 16 bits) through the real connection loop, summarised
+    per session and validated by Trace_BigUpload (ranges by Attach!MissIntervals; MC_Miss shows it equal to MissSegments)"""
+    from checks.c01 import trace_validate
+    tr = os.path.join(ctx.scratch, "big_uploads.ndjson")
+    ctx.vh_ok(["c15-big", tr], timeout=600)
+    events = vlib.read_nd(tr, quoted=False)
+    trace_validate(ctx, "Trace_BigUpload", tr, events, "large-upload-sessions-validated-by-Trace_BigUpload",
+                   lambda inv, e: "%s size=%s dialect=%s" % (inv, e.get("size"), e.get("dialect")))
